@@ -114,3 +114,22 @@ CHECKS["C09"] = {
     "text": "Loops = the C08 corpus (1.7k quick / 3.2k thorough) x variants (OMPParallelLoopTrans, OMPLoopTrans(do)+OMPParallelTrans; thorough adds paralleldo, loop, teamsdistributeparalleldo) x collapse none/2; quick: 57k (loop, input, schedule) executions, thorough: 550k. Partitions with in-order blocks are exactly the outcomes static/dynamic/guided schedules can produce (up to thread renaming) for <=6 iterations; without a race the sequential composition of the thread blocks is representative of every interleaving.",
     "note": "Clause semantics are modelled (private undefined at entry, firstprivate initialised at region entry, everything else shared); post-region values of private/firstprivate scalars are not compared; inputs with more than 6 collapsed iterations are skipped. libgomp is not used. Open findings: integer-division subscripts, collapse(2) ignoring inner-loop dependences, conditionally written scalars made firstprivate, write-only scalars left shared.",
 }
+
+CHECKS["C28"] = {
+    "level": "model_checking",
+    "technique": "exhaustive enumeration of small control-flow programs x every consecutive statement range at every nesting level x the four PSyData transformations x naming configurations (and pairs of regions) x one input per distinct control-flow path; the instrumented code written by FortranWriter is compiled with gfortran against a tracing PSyData stub library and run; a stack automaton judges every trace; E1 re-runs GOTO-free elements as a cross-check",
+    "text": "quick: 3,958 elements / 26k executed runs; thorough: 81.6k elements / 732k runs. Programs are all sequences of <=3 statements over assignments, loops, if(c) exit|cycle|return|goto, labelled continue and branches (loop depth <=2). Every executed trace must be a well-nested sequence of matching ENTER/EXIT events, closed at the end, and no two static regions may share a (module, region) name unless the user passed the same explicit name.",
+    "note": "gfortran + the 5-module stub library (mc/c28_stub) are the reference execution; refusals are allowed outcomes. Fixed: regions left/entered by EXIT/CYCLE/GOTO were accepted; ExtractTrans accepted regions containing RETURN.",
+}
+CHECKS["C07"] = {
+    "level": "model_checking",
+    "technique": "bounded-exhaustive caller x callee x call-site enumeration; real InlineTrans on every call; the written and re-read result is executed by the E1 reference interpreter and compared with by-reference execution of the original on n=1..3 x k=1..2; Fortran aliasing rules enforced by an admissibility monitor; gfortran cross-check of the originals",
+    "text": "quick: 1,462 programs (scalar/array/element/section/structure/expression actuals, clashing local and module names, explicit- and assumed-shape dummies with non-unit lower bounds, functions, calls in loops/ifs/expressions), 1,510 accepted inlinings executed 8.5k times; thorough: 52.9k programs. The caller's observable store (dummies + module variables) must be unchanged by inlining.",
+    "note": "The transformed program that is executed is the FortranWriter text re-read by the frontend (so name capture is visible). Inadmissible originals (aliasing violations, definition of expression-associated dummies) are skipped. Open findings: actual arguments re-evaluated at each use (call-by-name), undeclared extent names from explicit-shape dummies / automatic arrays, structure-member actuals not shifted, bounds inquiries answered for the actual, smaller explicit-shape dummies. Fixed: local capturing a module variable.",
+}
+CHECKS["C29"] = {
+    "level": "model_checking",
+    "technique": "stateless model checking of the implementation: real psy.gen runs execute as threads under a baton scheduler whose scheduling points are exactly the file-system operations of CodedKern.rename_and_write (os/open proxies in psyclone.psyGen's namespace); iterative preemption bounding; every maximal schedule executed once, one per work item re-executed for determinism",
+    "text": "Both kernel-renaming schemes, 1-3 concurrent PSyclone runs (identical kernel, differently transformed kernel, different kernel, two kernels in one run), directory empty or pre-populated: all interleavings for two runs (complete, up to 5 preemptions) and three runs up to 3 (AAA) / 1 (AAB) preemptions in quick (511 schedules, 4.3k FS operations); thorough extends the three-run bounds. Oracle per complete schedule: fresh files per run under 'multiple', names inside each file match the file, each PSy layer uses what it wrote, 'single' shares identical kernels and fails differing ones.",
+    "note": "Sound reductions (os.close and pid-private files not branched on; same-typed runs start in index order) are cross-checked against the unreduced two-run system. Deadlock, divergence on replay and step timeouts are harness errors. Fixed: 'single' scheme reader could see the creator's empty file (atomic publish by link).",
+}
